@@ -54,6 +54,27 @@ CLAIMS.update({
             "§3.2, §3.11, §4 C18"),
 })
 
+CLAIMS.update({
+    "C02": ("control-dependence (extent guard) + effect analysis + operation algebra + fold-shape analysis",
+            "fold order (single forward loop, list built in file order, no other writer), G1 (every feature write under one extent test "
+            "that consults geometry only) which with PURE entails that a non-covering feature has no influence, operation algebra and "
+            "string mapping, R1 (every model honours its operation; new value independent of the painted value), per-kind model folds",
+            "§3.4, §3.1, §3.6, §4 C02"),
+    "C03": ("algebraic normal form of the initial blocks + key provenance + control dependence",
+            "background blocks (adiabat Tp*exp(alpha*g*depth/cp), 0, zeros, -1, (0,0,0)), constants assigned only from the entry of their own "
+            "name, G1, forced surface temperature emitted under exactly its condition, never handed to features, independent of batching",
+            "§3.6, §3.3, §3.4, §4 C03"),
+    "C05": ("sibling cross-check in normal form + model-level dataflow rules + computer-algebra comparison of simple closed forms",
+            "SIB over all replicated model classes with a frozen table of explained differences, R1, G4/G2 (inclusive two-sided range "
+            "guard), N1 (sentinel overrides: tested variable = replaced variable, world's constant / adiabat, no dead override), closed "
+            "forms of uniform/adiabatic/linear. Chapman, mass-conserving, tian2019 recipes are not decided",
+            "§3.5, §3.6, §4 C05"),
+    "C09": ("algebraic normal form of the cross-section map + layout agreement + dominance of the refusal",
+            "direction vector, Cartesian and spherical 2D->3D point map, degree conversion, release-active refusal as first statement, "
+            "2D slot walker vs library width table, velocity projection evaluated in statement order, 2D single-property forwarding",
+            "§3.6, §3.2, §3.4, §4 C09"),
+})
+
 NOT_APPLICABLE = {
     "C20": "bounds and monotonicity of transcendental cooling profiles are real-analysis facts about run-time quantities; "
            "no sound static argument in reach (DESIGN.md §4 C20)",
